@@ -112,6 +112,10 @@ func c11(c *an.Ctx) {
 					r.Except(name, reason)
 					continue
 				}
+				if c.PrivateHelperOf(cs.Caller, an.Allowed(exceptions)) {
+					r.Except(name, "unexported helper called only from an excepted function")
+					continue
+				}
 				// arg1: a local assigned on both arms of the InitNumOfShards split
 				id, ok := ast.Unparen(cs.Call.Args[1]).(*ast.Ident)
 				if !ok {
